@@ -2,7 +2,7 @@
 """C02 -- an interrupted NDEF write never leaves a corrupt message on the tag (write-phase ordering)."""
 import ast
 
-from ..model import norm, head, walk_no_nested, AnalysisError, FuncInfo, enclosing_stmt, ancestors
+from ..model import norm, head, walk_no_nested, AnalysisError, FuncInfo, enclosing_stmt, ancestors, live
 from ..cfg import cfg_of
 from ..q import (find, match, const, try_const, only_via, tests, stmt_nodes, one, fmt, cfg_node_for, linear, calls)
 from ..core import key
@@ -163,8 +163,8 @@ def rule_t4(report, prog):
     t = [tn for e, tn in cfg.test_nodes.items() if norm(e) == 'len(nlen) + len(data) <= self._max_lc']
     okk = len(t) == 1 and isinstance(t[0].owner, ast.If)
     if okk:
-        b = [norm(s) for s in t[0].owner.body]
-        o = [norm(s) for s in t[0].owner.orelse]
+        b = [norm(s) for s in live(t[0].owner.body)]
+        o = [norm(s) for s in live(t[0].owner.orelse)]
         okk = b == ['data = bytearray(nlen) + data', 'nlen = None'] and o == ['data = bytearray(len(nlen)) + data']
     report.check(okk, 'C02-R5', key(f.qname, 'single command carries NLEN+data, else the first chunk carries a zero NLEN'), f.loc(),
                  'Type 4 write no longer starts with either the complete file or a zero length')
